@@ -48,7 +48,9 @@ def comment_list(comment: None | str | list[str]):
     if isinstance(comment, str):
         comment = [comment]
 
-    return [f"-- {c}" for c in comment]
+    # a line break inside a comment would end the VHDL comment,
+    # every line of the text needs its own comment token
+    return [f"-- {line}" for c in comment for line in (str(c).splitlines() or [""])]
 
 
 class Statement:
@@ -144,7 +146,7 @@ class Comment(Statement):
         self.lines = lines
 
     def write(self, scope: VhdlScope):
-        return TextBlock([f"-- {line}" for line in self.lines])
+        return TextBlock(comment_list([*self.lines]))
 
 
 class Boolean(Expression):
